@@ -8,7 +8,7 @@
 //           auth 0 none configured, 1 accepted, 2 refused; enc 0 good, 1 bad body (eager decoder), 2 bad body
 //           (lazy decoder), 3 unsupported Content-Encoding; ct 0 protobuf, 1 json, 2 anything else;
 //           body -1 = does not unmarshal, n >= 0 = n items; body_code -1 = body is not an rpc.Status
-//   kind 8  hop through an exporter: [transport; auth; items; o...; signal; compression] -> [called; verdict; delay; errcode; sink_n; sink_eq]
+//   kind 8  hop through an exporter: [transport; auth; items; o...; signal; compression; sets_event_name_or_zero_threshold] -> [called; verdict; delay; errcode; sink_n; sink_eq]
 //           transport 0 grpc, 1 http/proto, 2 http/json; verdict 0 success, 1 permanent, 2 retryable, 3 throttle
 //   kind 9  raw gRPC frame:    [auth; body; o...]                            -> [called; code; ri_present; ri_nanos]   (code 0 = OK)
 //
@@ -580,7 +580,7 @@ func vGenTraces(r *vRand, n int) ptrace.Traces {
 }
 
 func vGenLogs(r *vRand, n int) plog.Logs {
-	useEvent := r.Intn(6) == 0 // LogRecord.event_name is dropped by the JSON decoder (known finding): keep the region small
+	useEvent := r.Intn(2) == 0 // regression input: the JSON decoder used to drop LogRecord.event_name (repaired by /repo 3d5efdb0d)
 	ld := plog.NewLogs()
 	if n == 0 && r.Bool() {
 		return ld
@@ -614,7 +614,7 @@ func vGenLogs(r *vRand, n int) plog.Logs {
 
 // n = number of data points
 func vGenMetrics(r *vRand, n int) pmetric.Metrics {
-	useZT := r.Intn(6) == 0 // ExponentialHistogramDataPoint.zero_threshold is dropped by the JSON decoder (known finding)
+	useZT := r.Intn(2) == 0 // regression input: the JSON decoder used to drop ExponentialHistogramDataPoint.zero_threshold (repaired by /repo 3d5efdb0d)
 	md := pmetric.NewMetrics()
 	if n == 0 && r.Bool() {
 		return md
@@ -807,8 +807,8 @@ type vPayload struct {
 	pb    []byte
 	js    []byte
 	send  func(e *vExp) error
-	alt   []byte // canonical bytes with the fields the JSON decoder is known to drop cleared (nil: none set)
-	why   string
+	alt   []byte // canonical bytes with event_name / zero_threshold cleared (nil: the payload sets neither)
+	why   string // which of the two fields the payload sets (diagnostics only)
 }
 
 func vMkPayload(r *vRand, signal, n int) vPayload {
@@ -852,7 +852,7 @@ func vMkPayload(r *vRand, signal, n int) vPayload {
 		if bytes.Equal(alt, c) {
 			alt = nil
 		}
-		return vPayload{c, pb, js, func(e *vExp) error { return e.metrics.ConsumeMetrics(ctx, md) }, alt, "known:json-drops-exphist-zero-threshold "}
+		return vPayload{c, pb, js, func(e *vExp) error { return e.metrics.ConsumeMetrics(ctx, md) }, alt, "sets ExponentialHistogramDataPoint.zero_threshold; "}
 	case 2:
 		ld := vGenLogs(r, n)
 		if ld.LogRecordCount() != n {
@@ -876,7 +876,7 @@ func vMkPayload(r *vRand, signal, n int) vPayload {
 		if bytes.Equal(alt, c) {
 			alt = nil
 		}
-		return vPayload{c, pb, js, func(e *vExp) error { return e.logs.ConsumeLogs(ctx, ld) }, alt, "known:json-drops-log-event-name "}
+		return vPayload{c, pb, js, func(e *vExp) error { return e.logs.ConsumeLogs(ctx, ld) }, alt, "sets LogRecord.event_name; "}
 	default:
 		pd := vGenProfiles(r, n)
 		if pd.SampleCount() != n {
@@ -963,17 +963,16 @@ func (v *vEnv) hop(r *vRand, transport, auth, items int, o vOutcome, signal int,
 	sinkEq := int64(1)
 	for _, g := range got {
 		if !bytes.Equal(g, p.canon) {
-			if p.alt != nil && bytes.Equal(g, p.alt) {
-				sinkEq = 2
-			} else {
-				sinkEq = 0
-			}
+			sinkEq = 0
 		}
 	}
 	lossy := int64(0)
 	if p.alt != nil {
 		lossy = 1
-		v.out.Stat("hop_payload_with_json_lossy_field", 1)
+		v.out.Stat("hop_payload_sets_event_name_or_zero_threshold", 1)
+		if transport == 2 {
+			v.out.Stat("hop_json_payload_sets_event_name_or_zero_threshold", 1)
+		}
 	}
 	in := append([]string{vZ(int64(transport)), vZ(int64(auth)), vZ(int64(items))}, o.terms()...)
 	in = append(in, vZ(int64(signal)), vZ(int64(compIdx)), vZ(lossy))
@@ -1000,8 +999,13 @@ func (v *vEnv) hop(r *vRand, transport, auth, items int, o vOutcome, signal int,
 	// ---- direct oracle
 	if sinkEq != 1 || len(got) > 1 {
 		why := ""
-		if sinkEq == 2 && transport == 2 && len(got) == 1 {
+		if p.alt != nil {
 			why = p.why
+			for _, g := range got {
+				if bytes.Equal(g, p.alt) {
+					why += "the sink holds the sent payload with exactly that field cleared; "
+				}
+			}
 		}
 		v.out.Oracle("sink-payload-differs", term, why+desc)
 	}
@@ -1261,8 +1265,11 @@ func (v *vEnv) rawHTTP(r *vRand, auth, enc int, post bool, ct int, bodyItems int
 		v.out.Oracle("payload-not-delivered", term, desc)
 	} else if !bytes.Equal(got[0], p.canon) || len(got) != 1 {
 		why := ""
-		if ct == 1 && len(got) == 1 && p.alt != nil && bytes.Equal(got[0], p.alt) {
+		if p.alt != nil {
 			why = p.why
+			if bytes.Equal(got[0], p.alt) {
+				why += "the sink holds the sent payload with exactly that field cleared; "
+			}
 		}
 		v.out.Oracle("sink-payload-differs", term, why+desc)
 	}
